@@ -42,20 +42,29 @@ SolveOk(e) ==
          /\ Len(e.x) = e.n
          /\ ExactSolution(e.a, e.x, e.b, e.n)
          /\ (Has(e, "want") => SameSeqs(e.x, e.want))
-    ELSE /\ e.len = e.n /\ UnitsOk(e.units, Guard(e))
+    ELSE /\ e.len = e.n
+         /\ (Has(e, "units") \/ Has(e, "cunits"))
+         /\ (Has(e, "units") => UnitsOk(e.units, Guard(e)))
          /\ (Has(e, "sunits") => UnitsOk(e.sunits, SharpGuard(e.n, IsCx(e))))
+         \* componentwise: max_i |r_i| / (eps (|L||U||x|)_i); invariant under row / column scalings
+         /\ (Has(e, "cunits") => UnitsOk(e.cunits, SharpGuard(e.n, IsCx(e))))
 AgreeOk(e) ==
   IF e.panic THEN FALSE
   ELSE IF e.ty = "rat" THEN e.len1 = e.n /\ e.len2 = e.n /\ Len(e.x1) = e.n /\ SameSeqs(e.x1, e.x2)
-  ELSE /\ UnitsOk(e.units, IF e.n > 8 THEN Guard(e) ELSE 2 * Guard(e))
+  ELSE /\ (Has(e, "units") \/ Has(e, "cunits"))
+       /\ (Has(e, "units") => UnitsOk(e.units, IF e.n > 8 THEN Guard(e) ELSE 2 * Guard(e)))
        /\ (Has(e, "sunits") => UnitsOk(e.sunits, 2 * SharpGuard(e.n, IsCx(e))))
+       /\ (Has(e, "cunits") => UnitsOk(e.cunits, 2 * SharpGuard(e.n, IsCx(e))))
 DetOkEv(e) ==
   IF e.panic THEN FALSE
   ELSE IF e.ty = "rat"
     THEN /\ ExactDeterminant(e.a, e.det, e.n)
          /\ (Has(e, "wdet") => e.det = <<e.wdet, 1>>)
          /\ SameIntMat(e.post, e.a)
-    ELSE /\ UnitsOk(e.units, Guard(e))
+    ELSE /\ (Has(e, "units") \/ Has(e, "sdunits"))
+         /\ (Has(e, "units") => UnitsOk(e.units, Guard(e)))
+         \* |det^ - det| in units of eps |det| tr(|A^-1| |L||U|): first-order perturbation bound, invariant under scalings
+         /\ (Has(e, "sdunits") => UnitsOk(e.sdunits, SharpGuard(e.n, IsCx(e))))
          /\ SameSeqs(e.pre, e.post) /\ Len(e.pre) = e.n * e.n
          \* integer matrices: the exact reference determinant the harness measured against is recomputed here
          /\ (Has(e, "dex") => e.dex = Bareiss(RowsOf(e.a), e.n))
@@ -64,8 +73,10 @@ InverseOkEv(e) ==
   ELSE IF e.ty = "rat"
     THEN ExactInverse(e.a, e.inv, e.n) /\ SameIntMat(e.post, e.a)
     ELSE /\ e.rows = e.n /\ e.cols = e.n
-         /\ UnitsOk(e.runits, Guard(e))
+         /\ (Has(e, "runits") \/ Has(e, "crunits"))
+         /\ (Has(e, "runits") => UnitsOk(e.runits, Guard(e)))
          /\ (Has(e, "srunits") => UnitsOk(e.srunits, SharpGuard(e.n, IsCx(e))))
+         /\ (Has(e, "crunits") => UnitsOk(e.crunits, SharpGuard(e.n, IsCx(e))))
          \* the left residual is only logged when kappa_inf(A) <= 1e8 (it carries a condition number)
          /\ (Has(e, "lunits") => UnitsOk(e.lunits, Guard(e)))
          /\ SameSeqs(e.pre, e.post) /\ Len(e.pre) = e.n * e.n
